@@ -202,6 +202,78 @@ def nan_sequences(rng, n_random, exhaustive_upto=7):
     return out
 
 
+def special_quats():
+    """quaternions where a component-wise test and the norm test of a sign flip differ or sit on a boundary: all 16
+    (+-1/2, +-1/2, +-1/2, +-1/2) (a flip moves EVERY component by exactly 1), the 8 axis units, the 24 (+-1/sqrt2, +-1/sqrt2, 0, 0)-type rows"""
+    out = []
+    for b in range(16):
+        out.append(('half', np.array([0.5 if b >> k & 1 else -0.5 for k in range(4)])))
+    for k in range(4):
+        for sg in (1.0, -1.0):
+            v = np.zeros(4); v[k] = sg
+            out.append(('axis', v))
+    r = math.sqrt(0.5)
+    for i in range(4):
+        for j in range(i + 1, 4):
+            for si in (r, -r):
+                for sj in (r, -r):
+                    v = np.zeros(4); v[i] = si; v[j] = sj
+                    out.append(('sqrt2', v))
+    return out
+
+
+def special_sequences(rng, reps=1):
+    """(kind, rows): constant special attitudes with arbitrary sign-flip patterns (all patterns for N = 3, 4 on one member of each
+    family), smooth arcs passing exactly through a special quaternion with flips, and pairs exactly 60 degrees apart (|diff| = 1)"""
+    out = []
+    S = special_quats()
+    for fam in ('half', 'axis', 'sqrt2'):
+        q = [v for k, v in S if k == fam][3]
+        for N in (3, 4):
+            for bits in range(2 ** N):
+                out.append((f'const-{fam}-all-patterns', [(-1.0 if bits >> k & 1 else 1.0) * q for k in range(N)]))
+    for idx, (fam, q) in enumerate(S):
+        for rp in range(reps):
+            N = (2, 3, 4, 5, 7, 9)[(idx + rp) % 6]
+            sg = rng.choice([-1.0, 1.0], size=N)
+            out.append((f'const-{fam}', [s_ * q for s_ in sg]))
+            # an arc through q: q is row m of a smooth sequence, steps 1e-3..0.05 rad, with sign flips
+            u = _orth(rng, q)
+            step = float(10 ** rng.uniform(-3, -1.3))
+            m = int(rng.integers(0, N))
+            sgn, rows = 1.0, []
+            for k in range(N):
+                if rng.uniform() < 0.4:
+                    sgn = -sgn
+                a = (k - m) * step
+                rows.append(sgn * (q if k == m else (math.cos(a) * q + math.sin(a) * u)))
+            out.append((f'arc-through-{fam}', rows))
+    h = np.array([0.5, 0.5, 0.5, 0.5])
+    for e_ in (np.array([1.0, 0, 0, 0]), np.array([0, 0, 1.0, 0])):     # |h - e| = 1 exactly: not a jump; |h + e| = sqrt 3: a jump
+        out.append(('exact-60deg', [e_, h, e_, -h, -e_, h]))
+    return out
+
+
+def _views(Qa):
+    """every way a QuaternionArray shows its rows: the .array attribute, the ndarray buffer of the object itself (np.asarray,
+    .view()), the component properties, indexing"""
+    N = Qa.shape[0]
+    return {'array': np.array(Qa.array, float), 'asarray': np.array(np.asarray(Qa), float),
+            'view': np.array(np.asarray(Qa.view()), float),
+            'wxyz': np.stack([np.asarray(Qa.w, float), np.asarray(Qa.x, float), np.asarray(Qa.y, float), np.asarray(Qa.z, float)], axis=1),
+            'index': np.array([np.asarray(Qa[i], float) for i in range(N)], float).reshape(N, 4)}
+
+
+def _views_agree(Qa):
+    """None when all views show the same bits, else (name of the deviating view, its value, .array)"""
+    V = _views(Qa)
+    ref = V['array']
+    for k, v in V.items():
+        if v.shape != ref.shape or not _bits_equal(v, ref):
+            return (k, v, ref)
+    return None
+
+
 def _rows_json(rows, mask, partial=None):
     """rows as JSON; masked rows become None (all NaN) or, when a generator `partial` is given, for about half of them a row
     with only one, two or three NaN components"""
@@ -329,6 +401,13 @@ def correspondence(ctx):
     for N, mask in ((4, [True, False, False, False]), (4, [False, False, True, True]), (5, [True, True, False, True, False]),
                     (3, [True, True, True])):
         seqs.append(('boundary', smooth_rows(ctx.rng, N), mask))
+    spec = special_sequences(ctx.rng)
+    for j in range(0, len(spec), 1 if not ctx.quick() else 3):
+        kind, rows = spec[j]
+        mask = [False] * len(rows)
+        if len(rows) >= 4 and j % 2:
+            mask[1 + j % (len(rows) - 2)] = True
+        seqs.append(('special-' + kind.split('-')[0], rows, mask))
     # (1) get_nan_intervals on masks (2-D data and 1-D data)
     masks = [m for _, _, m in seqs] + [[bool(b) for b in ctx.rng.integers(0, 2, int(ctx.rng.integers(1, 30)))] for _ in range(ctx.n(40, 400))]
     exprs = ['get_nan_intervals [%s]' % '; '.join('true' if b else 'false' for b in m) for m in masks]
@@ -394,7 +473,13 @@ def correspondence(ctx):
         ctx.agree('q_correct')
         # slerp_nan
         Qb = _qarray(rj)
-        r = call_outcome(lambda: Qb.slerp_nan(inplace=False))
+        if k % 2:       # default (in-place) mode, observed through the object itself; every view must show the same rows
+            r = call_outcome(lambda: (Qb.slerp_nan(), np.array(np.asarray(Qb), float))[1])
+            va = _views_agree(Qb) if r[0] == 'val' else None
+            if va is not None:
+                ctx.disagree('slerp_nan', inp, 'one array', {va[0]: va[1], 'array': va[2]}, note='views of the object disagree after the in-place fill')
+        else:
+            r = call_outcome(lambda: Qb.slerp_nan(inplace=False))
         if m_sn == [[9]]:
             # the model is undefined exactly when a NaN run touches the boundary
             if not (mask[0] or mask[-1]):
@@ -566,6 +651,10 @@ def o_remove_jumps(inp):
     exp = orig * np.array(signs)[:, None]
     if out.shape != orig.shape or not _bits_equal(out, exp):
         return {'tag': f'{entry}/sign-pattern', 'observed': out, 'expected': exp}
+    if entry == 'remove_jumps':
+        va = _views_agree(Qa)
+        if va is not None:
+            return {'tag': f'{entry}/views-disagree', 'observed': {va[0]: va[1]}, 'expected': va[2]}
     okhyp = True
     for i in range(1, len(rows)):
         if _nanrow(rows[i]) or _nanrow(rows[i - 1]):
@@ -586,32 +675,47 @@ def o_remove_jumps(inp):
     return None
 
 
-def o_slerp_nan(inp):
-    """slerp_nan: valid rows unchanged (up to the sign its own jump removal gives them), each interior NaN run replaced by the
-    geodesic interpolants at k/(L+1) between its neighbours, nothing else"""
+def _rows_of(arr):
+    return [None if np.isnan(r).all() else [None if np.isnan(x) else float(x) for x in r] for r in np.asarray(arr, float)]
+
+
+def _fill_step(Qa, mode, step):
+    """one slerp_nan call on the object Qa (mode: 'default' = slerp_nan(), True, False), observed through every view of the
+    object, and checked against the property; returns a violation dict or None"""
     I = _impl()
-    rows = inp['rows']
-    inplace = bool(inp.get('inplace', False))
+    va = _views_agree(Qa)
+    if va is not None:
+        return {'tag': f'slerp_nan/{step}/views-disagree-before-call', 'observed': {va[0]: va[1]}, 'expected': va[2]}
+    orig = np.array(Qa.array, float)
+    rows = _rows_of(orig)
     mask = [_nanrow(r) for r in rows]
     runs = _max_runs(mask)
-    region = 'no-nan' if not runs else ('one-run' if len(runs) == 1 else 'multi-run')
+    region = step + ('no-nan' if not runs else ('one-run' if len(runs) == 1 else 'multi-run'))
     if runs and (mask[0] or mask[-1]):
         return None                     # boundary runs are outside the property
-    Qa = _qarray(rows)
-    orig = np.array(Qa.array)
-    r = call_outcome(lambda: Qa.slerp_nan(inplace=inplace))
+    inplace = mode in ('default', True)
+    r = call_outcome((lambda: Qa.slerp_nan()) if mode == 'default' else (lambda: Qa.slerp_nan(inplace=mode)))
     if r[0] == 'raise':
         return {'tag': f'slerp_nan/{region}/raises-{r[1]}', 'observed': list(r[1:])}
-    res = np.array(Qa.array) if inplace else np.asarray(r[1], float)
     if inplace and r[1] is not None:
         return {'tag': f'slerp_nan/{region}/inplace-returns-value', 'observed': type(r[1]).__name__}
+    va = _views_agree(Qa)
+    if va is not None:
+        return {'tag': f'slerp_nan/{region}/views-disagree', 'observed': {va[0]: va[1]}, 'expected': va[2],
+                'note': 'the object shows different rows through ' + va[0] + ' and through .array after the call'}
+    signs = _jump_signs(rows)
+    obj = np.array(np.asarray(Qa), float)
+    if not inplace:
+        # copy mode: the object itself only went through the jump removal
+        if not _bits_equal(obj, orig * np.array(signs)[:, None]):
+            return {'tag': f'slerp_nan/{region}/copy-mode-object-rows', 'observed': obj, 'expected': orig * np.array(signs)[:, None]}
+    res = obj if inplace else np.asarray(r[1], float)
     if res.shape != orig.shape:
         return {'tag': f'slerp_nan/{region}/shape', 'observed': res.shape, 'expected': orig.shape}
     if np.isnan(res).any():
         bad_rows = [int(i) for i in np.where(np.isnan(res).any(axis=1))[0]]
         kind = 'partly-nan-row-not-filled' if any(rows[i] is not None for i in bad_rows) else 'nan-left'
         return {'tag': f'slerp_nan/{region}/{kind}', 'observed': bad_rows, 'expected': 'no NaN in the output (all NaN runs are interior)'}
-    signs = _jump_signs(rows)
     for i, m in enumerate(mask):
         if not m and not _bits_equal(res[i], signs[i] * orig[i]):
             return {'tag': f'slerp_nan/{region}/valid-row-changed', 'observed': [i, res[i]], 'expected': signs[i] * orig[i]}
@@ -632,13 +736,38 @@ def o_slerp_nan(inp):
             e = I['quaternion'](a, b, [np.linspace(0, 1, L + 2)[k]])[0]
             if _ulps(ri, e) > 64:
                 return {'tag': f'slerp_nan/{region}/fill-differs-from-slerp', 'observed': ri, 'expected': e}
-    # second call on the same object: nothing is left to fill (the zero-run case), and the rows stay
-    if inplace:
-        r2 = call_outcome(lambda: Qa.slerp_nan(inplace=False))
-        if r2[0] == 'raise':
-            return {'tag': f'slerp_nan/{region}/second-call-raises-{r2[1]}', 'observed': list(r2[1:])}
-        if cm.maxabs(np.abs(np.asarray(r2[1], float)), np.abs(res)) > 0:       # up to the row signs of a renewed jump removal
-            return {'tag': f'slerp_nan/{region}/second-call-differs', 'observed': r2[1], 'expected': res}
+    return None
+
+
+def o_slerp_nan(inp):
+    """slerp_nan: valid rows unchanged (up to the sign its own jump removal gives them), each interior NaN run replaced by the
+    geodesic interpolants at k/(L+1) between its neighbours, nothing else; in the default in-place mode, inplace=True and
+    inplace=False; the object observed through all its views; optionally a second round: punch a new gap THROUGH THE OBJECT
+    (Q[i0:i1+1] = nan) and fill again; finally one more call (nothing left to fill)"""
+    rows = inp['rows']
+    mode = inp.get('inplace', False)
+    mode = 'default' if mode == 'default' else bool(mode)
+    mask = [_nanrow(r) for r in rows]
+    if any(mask) and (mask[0] or mask[-1]):
+        return None
+    Qa = _qarray(rows)
+    v = _fill_step(Qa, mode, '')
+    if v is not None or mode is False:
+        return v
+    punch = inp.get('punch')
+    if punch:
+        i0, i1 = int(punch[0]), int(punch[1])
+        if 1 <= i0 <= i1 < len(rows) - 1:
+            Qa[i0:i1 + 1] = np.nan              # a new gap written through the object itself
+            v = _fill_step(Qa, inp.get('inplace2', mode), 'second-round/')
+            if v is not None:
+                return v
+    before = np.array(np.asarray(Qa), float)
+    r2 = call_outcome(lambda: Qa.slerp_nan(inplace=False))
+    if r2[0] == 'raise':
+        return {'tag': f'slerp_nan/last-call/raises-{r2[1]}', 'observed': list(r2[1:])}
+    if cm.maxabs(np.abs(np.asarray(r2[1], float)), np.abs(before)) > 0:       # up to the row signs of a renewed jump removal
+        return {'tag': 'slerp_nan/last-call/differs', 'observed': r2[1], 'expected': before}
     return None
 
 
@@ -727,7 +856,12 @@ def search(ctx, scale):
     # sequences
     for j, (kind, rows, mask) in enumerate(nan_sequences(rng, 40 * scale)):
         rj = _rows_json(rows, mask, partial=rng if j % 3 else None)     # two of three sequences: partly-NaN rows among the gaps
-        inp = {'rows': rj, 'inplace': bool(j % 2)}
+        N = len(rj)
+        inp = {'rows': rj, 'inplace': ('default', True, False)[j % 3]}      # default in-place mode, explicit in-place, copy
+        if N >= 3 and j % 3 != 2:       # second round: a new interior gap written through the object, then filled again
+            a = int(rng.integers(1, N - 1)); b = int(min(N - 2, a + rng.integers(0, 3)))
+            inp['punch'] = [a, b]
+            inp['inplace2'] = ('default', True, False)[(j // 3) % 3]
         ctx.check('slerp_nan', inp, _call(o_slerp_nan, inp, 'slerp_nan'), nontrivial_key=('sn', kind, j) if any(mask) else None)
     # a gap between nearly antipodal / threshold-straddling / orthogonal neighbours, every run length 1..4
     for (region, p, q) in endpoint_pairs(rng, 0)[:60 * scale]:
@@ -735,11 +869,29 @@ def search(ctx, scale):
         rj = [p.tolist()] + [None] * L + [q.tolist()]
         if L >= 2:          # a partly-NaN row next to fully-NaN rows inside one gap
             rj[1 + len(region) % L] = [0.5, None, 0.5, 0.5]
-        inp = {'rows': rj, 'inplace': False}
+        inp = {'rows': rj, 'inplace': (False, 'default', True)[L % 3]}
         ctx.check('slerp_nan', inp, _call(o_slerp_nan, inp, 'slerp_nan'), nontrivial_key=('sn-pair', region, L, tuple(np.round(q, 6))))
     for N in (1, 2, 3, 4, 5, 7):       # particular lengths, no NaN: the zero-run case of "valid rows unchanged"
-        inp = {'rows': _rows_json(smooth_rows(rng, N), [False] * N), 'inplace': bool(N % 2)}
+        inp = {'rows': _rows_json(smooth_rows(rng, N), [False] * N), 'inplace': ('default', True, False)[N % 3]}
+        if N >= 3:
+            inp['punch'] = [1, N - 2]
         ctx.check('slerp_nan', inp, _call(o_slerp_nan, inp, 'slerp_nan'), nontrivial_key=None)
+    # sign-flip sequences on special quaternions: (+-1/2)^4, axis units, (+-1/sqrt2, +-1/sqrt2, 0, 0); constant and arcs through them
+    for j, (kind, rows) in enumerate(special_sequences(rng, reps=scale)):
+        rj = [[float(x) for x in r] for r in rows]
+        for entry in ('remove_jumps', 'q_correct'):
+            inp = {'rows': rj, 'entry': entry}
+            ctx.check('remove_jumps', inp, _call(o_remove_jumps, inp, entry), nontrivial_key=('rj-special', kind, j, entry))
+        N = len(rj)
+        inp = {'rows': rj, 'inplace': ('default', True, False)[j % 3]}
+        if N >= 3:
+            a = 1 + j % (N - 2)
+            inp['punch'] = [a, min(N - 2, a + j % 2)]
+        ctx.check('slerp_nan', inp, _call(o_slerp_nan, inp, 'slerp_nan'), nontrivial_key=('sn-special', kind, j))
+        if N >= 4 and j % 2:        # the same sequence with a gap from the start
+            rj2 = [None if i == 1 + j % (N - 2) else r for i, r in enumerate(rj)]
+            inp = {'rows': rj2, 'inplace': ('default', False, True)[j % 3]}
+            ctx.check('slerp_nan', inp, _call(o_slerp_nan, inp, 'slerp_nan'), nontrivial_key=('sn-special-gap', kind, j))
     for j in range(40 * scale):
         N = (1, 2, 3, 4, 5, 7)[j] if j < 6 else int(rng.integers(2, 30))
         rows = smooth_rows(rng, N, step=0.4)
